@@ -13,9 +13,17 @@
 (*   seq2(s)/3  every sequence of 2 / 3 operations from a pool (operator next to the next operand) *)
 (*   inlq/t  inline images: colour spaces (full and abbreviated names) x BPC {1,2,4,8} x small    *)
 (*           W,H, data containing EI, white-space and delimiters                                  *)
+(*   inloq/t inline images that spell out optional entries with default / neutral values          *)
+(*           (ImageMask false, Interpolate, Decode; abbreviated and full keys; three entry orders) *)
+(*           and stencil masks (ImageMask true, one bit per sample, no colour space)              *)
 EXTENDS SyntaxProducer, Content, TLC, Json
 
 CONSTANTS Universe, Emit
+
+\* TLC orders record fields by the order in which their names are first met while parsing, starting with this
+\* module.  PdfObjects relies on the kind field k being compared before the payload fields (values of
+\* different kinds then never compare payloads of different types): keep this first mention of k, v, w here.
+KindFirst(o) == <<o.k, o.v, o.w>>
 
 VARIABLES src,    \* the case being spelled: [ops, idws, free]
           fin     \* set by the single-successor Finish step (one REPLAY line per behaviour)
@@ -52,7 +60,7 @@ ContainerAtoms ==
 
 SmallKinds == {ONull, OBool(FALSE), I(7), OReal(FALSE, <<0>>, <<5>>), OName(<<>>), OName(<<65>>), OStr(<<41>>), OArr(<<I(1)>>), ODict(EmptyMap)}
 
-Case(ops) == [ops |-> ops, idws |-> 32, free |-> FALSE]
+Case(ops) == [ops |-> ops, idws |-> 32, free |-> FALSE, ord |-> 0]
 
 Adj  == {Case(<<Operation(op, <<>>)>>) : op \in Operators}
         \cup {Case(<<Operation(op, <<a>>)>>) : op \in Operators, a \in ScalarAtoms \cup {OArr(<<>>), ODict(EmptyMap)}}
@@ -83,7 +91,55 @@ InlineCase(cs, bpc, w, h, pat, abbr, ws, free) ==
         d == IF abbr THEN (InKeyW :> I(w)) @@ (InKeyH :> I(h)) @@ (InKeyBPC :> I(bpc)) @@ (InKeyCS :> OName(cs))
              ELSE (InKeyWidth :> I(w)) @@ (InKeyHeight :> I(h)) @@ (InKeyBits :> I(bpc)) @@ (InKeyColorSpace :> OName(cs))
     IN [ops |-> <<Operation(OpQ, <<>>), Operation(KwBI, <<OStream(d, Data(Patterns[pat], len))>>), Operation(OpBigQ, <<>>)>>,
-        idws |-> ws, free |-> free]
+        idws |-> ws, free |-> free, ord |-> 0]
+
+\* Optional entries of Table 93 spelled out with their default or neutral values: they must not change
+\* the data length.  opt: 1 ImageMask false, 2 Interpolate false, 3 Interpolate true, 4 Decode (two numbers
+\* per component), 5 Decode inverted, 6 all three.  oabbr: the optional keys abbreviated (IM, I, D) or in full.
+\* ord: the entries in the order of SetToSeq (0), reversed (1), rotated by two (2).
+DecodeArr(n, inv) == OArr([i \in 1..(2 * n) |-> I(IF inv THEN i % 2 ELSE (i + 1) % 2)])
+OptEntries(opt, oabbr, n) ==
+    LET kIM == IF oabbr THEN InKeyIM ELSE InKeyImageMask
+        kI  == IF oabbr THEN InKeyI ELSE InKeyInterpolate
+        kD  == IF oabbr THEN InKeyD ELSE InKeyDecode
+    IN IF opt = 1 THEN kIM :> OBool(FALSE)
+       ELSE IF opt = 2 THEN kI :> OBool(FALSE)
+       ELSE IF opt = 3 THEN kI :> OBool(TRUE)
+       ELSE IF opt = 4 THEN kD :> DecodeArr(n, FALSE)
+       ELSE IF opt = 5 THEN kD :> DecodeArr(n, TRUE)
+       ELSE IF opt = 6 THEN (kIM :> OBool(FALSE)) @@ (kI :> OBool(TRUE)) @@ (kD :> DecodeArr(n, FALSE))
+       ELSE EmptyMap
+InlineOpt(cs, bpc, w, h, pat, abbr, ws, free, opt, oabbr, ord) ==
+    LET c == InlineCase(cs, bpc, w, h, pat, abbr, ws, free)
+        img == c.ops[2].args[1]
+    IN [c EXCEPT !.ops[2].args[1] = OStream(img.v @@ OptEntries(opt, oabbr, NComp(cs)), img.w), !.ord = ord]
+
+\* Stencil masks (8.9.6.2): ImageMask true, one bit per sample, no colour space; BitsPerComponent 1 or absent.
+\* mv: 1 bare, 2 with BPC 1, 3 with Decode [1 0], 4 with BPC 1, Interpolate true and Decode [0 1]
+MaskCase(w, h, pat, abbr, ws, free, mv, ord) ==
+    LET len == h * ((w + 7) \div 8)
+        kb == IF abbr THEN InKeyBPC ELSE InKeyBits   kD == IF abbr THEN InKeyD ELSE InKeyDecode
+        kI == IF abbr THEN InKeyI ELSE InKeyInterpolate
+        d0 == IF abbr THEN (InKeyW :> I(w)) @@ (InKeyH :> I(h)) @@ (InKeyIM :> OBool(TRUE))
+              ELSE (InKeyWidth :> I(w)) @@ (InKeyHeight :> I(h)) @@ (InKeyImageMask :> OBool(TRUE))
+        d == IF mv = 2 THEN d0 @@ (kb :> I(1))
+             ELSE IF mv = 3 THEN d0 @@ (kD :> DecodeArr(1, TRUE))
+             ELSE IF mv = 4 THEN d0 @@ (kb :> I(1)) @@ (kI :> OBool(TRUE)) @@ (kD :> DecodeArr(1, FALSE))
+             ELSE d0
+    IN [ops |-> <<Operation(OpQ, <<>>), Operation(KwBI, <<OStream(d, Data(Patterns[pat], len))>>), Operation(OpBigQ, <<>>)>>,
+        idws |-> ws, free |-> free, ord |-> ord]
+
+InlOQ == {InlineOpt(CsAll[c], 8, 3, 2, 1, c % 2 = 1, 32, FALSE, opt, oabbr, opt % 3) : c \in {1, 4}, opt \in 1..6, oabbr \in BOOLEAN}
+         \cup {MaskCase(9, 2, 2, mv % 2 = 1, 32, FALSE, mv, mv % 3) : mv \in 1..4}
+InlOT == {InlineOpt(CsAll[c], 8, 3, 2, 1, abbr, 10, FALSE, opt, oabbr, ord) :
+             c \in 1..6, abbr \in BOOLEAN, opt \in 1..6, oabbr \in BOOLEAN, ord \in 0..2}
+         \cup {InlineOpt(CsAll[c], bpc, 2, 3, 3, c % 2 = 0, 32, FALSE, 6, c % 2 = 1, 2) : c \in 1..6, bpc \in {1, 2, 4}}
+         \cup {MaskCase(wh[1], wh[2], 2, abbr, 32, FALSE, mv, ord) :
+                  wh \in {<<1, 1>>, <<9, 2>>, <<16, 3>>}, abbr \in BOOLEAN, mv \in 1..4, ord \in 0..2}
+InlFreeO == {InlineOpt(CsAll[c], bpc, 3, 2, pat, abbr, ws, TRUE, opt, oabbr, ord) :
+               c \in 1..6, bpc \in {1, 8}, pat \in {1, 2}, abbr \in BOOLEAN, ws \in {32, 10}, opt \in 1..6, oabbr \in BOOLEAN, ord \in 0..2}
+            \cup {MaskCase(wh[1], wh[2], pat, abbr, ws, TRUE, mv, ord) :
+                  wh \in {<<1, 1>>, <<9, 2>>}, pat \in 1..3, abbr \in BOOLEAN, ws \in {32, 10}, mv \in 1..4, ord \in 0..2}
 
 InlQ == {InlineCase(CsAll[c], bpc, 3, 2, pat, c % 2 = 1, ws, FALSE) : c \in 1..6, bpc \in {1, 2, 4, 8}, pat \in {1, 2}, ws \in {32, 10}}
 InlT == {InlineCase(CsAll[c], bpc, wh[1], wh[2], pat, abbr, ws, FALSE) :
@@ -102,26 +158,41 @@ Cases == IF Universe = "adj" THEN Adj
          ELSE IF Universe = "inlq" THEN InlQ
          ELSE IF Universe = "inlt" THEN InlT
          ELSE IF Universe = "inlfree" THEN InlFree
-         ELSE IF Universe = "mix" THEN Adj \cup AdjC \cup Adj2 \cup Seq2 \cup Seq3 \cup InlFree
+         ELSE IF Universe = "inloq" THEN InlOQ
+         ELSE IF Universe = "inlot" THEN InlOT
+         ELSE IF Universe = "mix" THEN Adj \cup AdjC \cup Adj2 \cup Seq2 \cup Seq3 \cup InlFree \cup InlFreeO
          ELSE {}
 
 -----------------------------------------------------------------------------
 (* the work stack of a case *)
 IsInline(o) == o.op = KwBI /\ Len(o.args) = 1 /\ o.args[1].k = "stream"
 
-InlineItems(o, ws, free) ==
+Permute(keys, ord) ==
+    IF ord = 1 THEN Reverse(keys)
+    ELSE IF ord = 2 /\ Len(keys) > 2 THEN SubSeq(keys, 3, Len(keys)) \o SubSeq(keys, 1, 2)
+    ELSE keys
+
+BoolBytes(b) == IF b THEN KwTrue ELSE KwFalse
+IsIntArr(v) == v.k = "arr" /\ \A i \in 1..Len(v.v) : v.v[i].k = "int" /\ ~v.v[i].neg
+
+InlineItems(o, ws, free, ord) ==
     LET d == o.args[1].v
-        keys == SetToSeq(DOMAIN d)
+        keys == Permute(SetToSeq(DOMAIN d), ord)
+        \* not free: key and value pre-spelled in one token (numbers, booleans, arrays of numbers), so that the
+        \* exhaustive universes stay small; free: every spelling freedom of names, numbers and arrays
         entry(key) == IF free THEN <<Val(OName(key)), Val(d[key])>>
                       ELSE IF d[key].k = "int" THEN <<Tok(<<47>> \o key \o <<32>> \o DigitBytes(d[key].v))>>
+                      ELSE IF d[key].k = "bool" THEN <<Tok(<<47>> \o key \o <<32>> \o BoolBytes(d[key].v))>>
+                      ELSE IF IsIntArr(d[key]) THEN
+                           <<Tok(<<47>> \o key \o <<91>> \o Concat([i \in 1..Len(d[key].v) |-> DigitBytes(d[key].v[i].v) \o <<32>>]) \o <<93>>)>>
                       ELSE <<Tok(<<47>> \o key), Val(d[key])>>
     IN <<Tok(KwBI)>> \o Concat([i \in 1..Len(keys) |-> entry(keys[i])]) \o <<Tok(KwID), Raw(<<ws>> \o o.args[1].w), Tok(KwEI)>>
 
-OpItems(o, ws, free) ==
-    IF IsInline(o) THEN InlineItems(o, ws, free)
+OpItems(o, ws, free, ord) ==
+    IF IsInline(o) THEN InlineItems(o, ws, free, ord)
     ELSE [n \in 1..Len(o.args) |-> Val(o.args[n])] \o <<Tok(o.op)>>
 
-TodoOf(c) == Concat([i \in 1..Len(c.ops) |-> OpItems(c.ops[i], c.idws, c.free)])
+TodoOf(c) == Concat([i \in 1..Len(c.ops) |-> OpItems(c.ops[i], c.idws, c.free, c.ord)])
 
 InitWith(cases) ==
     /\ src \in cases
